@@ -130,6 +130,11 @@ type exec struct {
 	lastSnap   snapshot
 	fires      int
 	stats      map[string]int
+	// quietUntil: clock value before which no further signal may be sent (history-based, independent
+	// of the limiter's timer state): the latest instant at which an Add's token was fully handled,
+	// plus the initial delay (every Add either opens a window of the initial delay or extends the
+	// open one to at least that). Only maintained when no cap is set.
+	quietUntil int64
 }
 
 const opTimeout = 3 * time.Second
@@ -510,6 +515,23 @@ func (ex *exec) step(op *Op) bool {
 			}
 			if op.K != "add" {
 				ex.hi = 0
+			}
+		}
+		// history-based quiet window (does not read the limiter's timer): once an Add's token has been
+		// handled at clock A (quiescent, loop not parked, no token left), that Add has either been
+		// signalled as the first after idle and opened a window [A, A+initial], or it lies inside a
+		// window whose end it moved to at least A+initial. With no cap nothing may be signalled while
+		// the clock stays below A+initial — whatever the limiter did to its timer in between.
+		if ex.c.Cap == 0 {
+			if ex.quietUntil > 0 && preNow < ex.quietUntil && now < ex.quietUntil {
+				ex.stats["mon:quiet-window"]++
+				if f != 0 {
+					ex.violate("signal-before-window-end", fmt.Sprintf("%d signal(s) at clock %d (step %q, %d Adds): the last Add before this step was handled by the run loop at clock %d, so a window is open until at least %d (initial delay %d), no cap is set",
+						f, now, op.K, nAdds, ex.quietUntil-ex.c.Initial, ex.quietUntil, ex.c.Initial))
+				}
+			}
+			if !ex.parked && !held && snap.Tokens == 0 && (nAdds > 0 || preTokens > 0) && now+ex.c.Initial > ex.quietUntil {
+				ex.quietUntil = now + ex.c.Initial
 			}
 		}
 		parkedNow := ex.parked || preParked
@@ -997,6 +1019,57 @@ func genRace(r *lib.Rand, hold bool) (Case, func(*exec, int) *Op) {
 	return c, nil
 }
 
+// stale-expiry: the window's timer HAS expired (Stop() will report false) but the run loop has not
+// consumed the expiry when the next Add's token is handled; then further Adds at the same instant,
+// inside the re-armed window, exactly at and beyond its end. Two ways of getting there:
+//   hold: the expiry's channel send is kept back until the limiter's Stop/Reset (token-first forced);
+//   park: the loop stands at a hook while the clock reaches the deadline, the expiry sits in the
+//         timer's 1-slot channel (what a k8s FakeClock timer does) and the select picks either.
+// pre = Adds inside the first window before the expiry (0: the expired window is the initial one,
+// nothing pending; k: the k-th doubled window with Adds pending).
+func genStale(r *lib.Rand, hold bool) (Case, func(*exec, int) *Op) {
+	c := randCfg(r, "stale-expiry")
+	if r.Intn(3) != 0 {
+		c.Cap = 0
+	}
+	pre := r.Intn(3)
+	rel := []string{"exact", "beyond"}[r.Intn(2)]
+	one := Op{K: "add", N: 1, G: 1}
+	var ops []Op
+	if hold {
+		ops = append(ops, one)
+		for i := 0; i < pre; i++ {
+			ops = append(ops, one)
+		}
+		ops = append(ops, Op{K: "adv", Rel: rel, Hold: true}, Op{K: "add", N: 1 + r.Intn(2), G: 1})
+	} else {
+		if pre == 0 {
+			ops = append(ops, Op{K: "park"}, one)
+		} else {
+			ops = append(ops, one)
+			for i := 1; i < pre; i++ {
+				ops = append(ops, one)
+			}
+			ops = append(ops, Op{K: "park"}, one)
+		}
+		ops = append(ops, Op{K: "add", N: 1 + r.Intn(2), G: 1}, Op{K: "adv", Rel: rel}, Op{K: "release"})
+	}
+	// the same instant: the window has just been re-armed (or opened by the late token)
+	switch r.Intn(4) {
+	case 0:
+		ops = append(ops, one)
+	case 1:
+		ops = append(ops, one, one)
+	case 2:
+		ops = append(ops, Op{K: "add", N: 2, G: 2})
+	default:
+		ops = append(ops, Op{K: "adv", Rel: "inside"}, one)
+	}
+	ops = append(ops, Op{K: "adv", Rel: "inside"}, one, Op{K: "adv", Rel: []string{"exact", "beyond"}[r.Intn(2)]}, one, Op{K: "adv", Rel: "gap"})
+	c.Ops = ops
+	return c, nil
+}
+
 // closeAtHook: Close (or cancel) lands exactly while the loop is between a handler and its select.
 func genCloseAtHook(r *lib.Rand, viaTimer bool, kind string) Case {
 	c := randCfg(r, "close-at-hook")
@@ -1382,7 +1455,7 @@ func main() {
 		n := 1
 		if v, err := strconv.Atoi(os.Getenv("C09_REPEAT")); err == nil && v > 0 {
 			n = v
-		} else if rp.Case.Family == "race" {
+		} else if rp.Case.Family == "race" || rp.Case.Family == "stale-expiry" {
 			n = 40 // the select's choice is the runtime's: repeat
 		}
 		for i := 0; i < n; i++ {
@@ -1508,6 +1581,21 @@ func main() {
 		res.Hit("race:token-first-deadline-passed(held expiry)")
 		report(res, ck, o)
 		if i < 1 {
+			res.Sample(map[string]any{"case": o.Case, "trace": plain(o.Lines)})
+		}
+	}
+	// 5b. stale expiry: timer expired but not consumed when the next token is handled, then Adds at the same instant
+	rs := lib.NewRand(fl.Seed*0x9e3779b97f4a7c15 + 0x57a1e)
+	for i := 0; i < 120*mult; i++ {
+		c, g := genStale(rs, i%2 == 0)
+		o := runCase(c, g)
+		if i%2 == 0 {
+			res.Hit("stale-expiry:held")
+		} else {
+			res.Hit("stale-expiry:in-channel:" + raceOrder(o))
+		}
+		report(res, ck, o)
+		if i < 2 {
 			res.Sample(map[string]any{"case": o.Case, "trace": plain(o.Lines)})
 		}
 	}
